@@ -17,7 +17,7 @@ dirs=[d.rstrip('/') for d in dirs if os.path.isdir(os.path.join(W,d.rstrip('/'))
 default=dirs[0] if dirs else None
 place={}
 for f in files:
-    m=re.search(r'((?:bcs|kernel|lib)/[A-Za-z0-9_/.-]+)/'+re.escape(f),demo) or re.search(re.escape(f)+r'\s*(?:->|→|to|into)\s*`?((?:bcs|kernel|lib)/[A-Za-z0-9_/.-]+)',demo)
+    m=re.search(r'((?:bcs|kernel|lib)/[A-Za-z0-9_/.-]+)/'+re.escape(f),demo) or re.search(re.escape(f)+r'\s*(?:->|→|to|into)\s*(?:copy\s+)?(?:to\s+|into\s+)?`?((?:bcs|kernel|lib)/[A-Za-z0-9_/.-]+)',demo)
     d=m.group(1).rstrip('/') if m and os.path.isdir(os.path.join(W,m.group(1))) else default
     place[f]=d
 pat=re.search(r"-run[ =]+'?\"?([A-Za-z0-9_|^$.*]+)",demo)
